@@ -206,6 +206,52 @@ fn run(name: &str, j: &J) -> Result<bool, String> {
             println!("  type of a / b over {}: {}; at a = {}, b = {} the quotient is {}", dt, img, a, b, y);
             Ok(img.contains(&Value::float(y)))
         }
+        // C11: interval-set operations on the real Intervals<i64> versus plain point sets over 0..=9
+        "c11_intervals_case" | "c11_intervals_search" => {
+            use qrlew::data_type::intervals::Intervals;
+            fn pts(iv: &Intervals<i64>) -> u16 { let mut m = 0u16; for x in 0..=9i64 { if iv.contains(&x) { m |= 1 << x; } } m }
+            fn raw_pts(iv: &Intervals<i64>) -> Option<u16> {
+                // read the representation directly (Deref<[[i64;2]]>) and check it is sorted and disjoint
+                let mut m = 0u16; let mut last: Option<i64> = None;
+                for [a, b] in iv.iter() { if a > b { return None; } if let Some(l) = last { if *a <= l { return None; } } last = Some(*b); for x in (*a).max(0)..=(*b).min(9) { m |= 1 << x; } }
+                Some(m)
+            }
+            fn build(ivs: &[(i64, i64)]) -> (Intervals<i64>, u16) {
+                let mut r = Intervals::<i64>::empty(); let mut m = 0u16;
+                for (a, b) in ivs { r = r.union_interval(*a, *b); for x in *a..=*b { m |= 1 << x; } }
+                (r, m)
+            }
+            fn check(a: &[(i64, i64)], b: &[(i64, i64)]) -> Option<String> {
+                let (ia, ma) = build(a); let (ib, mb) = build(b);
+                match raw_pts(&ia) { None => return Some(format!("{:?} builds an unsorted list {}", a, ia)), Some(m) if m != ma => return Some(format!("{:?} builds {} (points {:#b} expected {:#b})", a, ia, m, ma)), _ => {} }
+                let u = ia.clone().union(ib.clone());
+                if raw_pts(&u) != Some(ma | mb) { return Some(format!("{} union {} = {}", ia, ib, u)); }
+                let n = ia.clone().intersection(ib.clone());
+                if raw_pts(&n) != Some(ma & mb) { return Some(format!("{} intersection {} = {}", ia, ib, n)); }
+                if ia.is_subset_of(&ib) != (ma & !mb == 0) { return Some(format!("{} is_subset_of {} = {}", ia, ib, ia.is_subset_of(&ib))); }
+                if pts(&ia) != ma { return Some(format!("contains() of {} disagrees with its points", ia)); }
+                None
+            }
+            let parse = |k: &str| -> Vec<(i64, i64)> { j[k].as_array().map(|v| v.iter().map(|p| (p[0].as_i64().unwrap(), p[1].as_i64().unwrap())).collect()).unwrap_or_default() };
+            if name == "c11_intervals_case" {
+                let r = check(&parse("a"), &parse("b"));
+                if let Some(m) = &r { println!("  {}", m); }
+                return Ok(r.is_none());
+            }
+            // search: all pairs of lists of up to 2 intervals with bounds in 0..=6
+            let mut ivs: Vec<(i64, i64)> = vec![]; for a in 0..=6 { for b in a..=6 { ivs.push((a, b)); } }
+            let mut lists: Vec<Vec<(i64, i64)>> = vec![vec![]];
+            for x in &ivs { lists.push(vec![*x]); }
+            for x in &ivs { for y in &ivs { lists.push(vec![*x, *y]); } }
+            for a in &lists { for b in lists.iter().step_by(7) {
+                if let Some(m) = check(a, b) {
+                    println!("  {}", m);
+                    println!("QX-WITNESS {}", serde_json::json!({"a": a.iter().map(|p| vec![p.0, p.1]).collect::<Vec<_>>(), "b": b.iter().map(|p| vec![p.0, p.1]).collect::<Vec<_>>()}));
+                    return Ok(false);
+                }
+            } }
+            Ok(true)
+        }
         _ => Err(format!("unknown replay `{}`", name)),
     }
 }
